@@ -34,7 +34,7 @@ struct Events {
 }
 
 /// run all selection methods of length n over xs (xs[0] is also the construction value)
-fn check_stream(n: usize, xs: &[f64], tag: &str, full_window_check: bool, r: &mut Report) -> bool {
+pub fn check_stream(n: usize, xs: &[f64], tag: &str, full_window_check: bool, r: &mut Report) -> bool {
 	let init = xs[0] as V;
 	let made = guard(|| {
 		Some(Insts {
